@@ -169,7 +169,11 @@ PROPERTIES = {
                 "account other than orbiter and dust collector, third-party (bridge) events incl. CCTP nonce, exported statistics; in the "
                 "second run the deposited balance of the transferred denom ends on the dust collector and other denoms stay untouched. "
                 "10% of the pairs name another denomination's Hyperlane token with that denomination deposited (it must not pay for the transfer). "
-                "Non-trivial = the transferred denom had a pre-existing balance and the base run succeeded; distinct by (deposits, transfer).",
+                "Non-trivial = the transferred denom had a pre-existing balance and the base run succeeded; distinct by (deposits, transfer). "
+                "TestC11HookFees: Hyperlane transfers naming an interchain gas paymaster of the environment as custom hook (the mailbox charges the "
+                "sender gas_limit base units of the paymaster's denomination up to max_fee), fee and max_fee in the transferred or another denomination, "
+                "below/at/above the quote, deposits around the fee, same two-run oracle; the class of the open known finding C11-hook-fee (fee in another "
+                "denomination attempted on a pre-existing balance of it) is excluded by construction and counted, TestC11KnownHookFee reproduces it.",
         "assumptions": COMMON_ASSUMPTIONS,
         "tests": [
             {"test": "TestC11Pairs", "quick": 2000, "thorough": 800000},
@@ -231,11 +235,15 @@ PROPERTIES = {
                 "a second brand-new instance that first executed the warm-up on a DISCARDED branch, and on the long-lived instance of the process; "
                 "all three transcripts must be identical (state kept outside the store); 60% of the cases send siblings of the warm-up's valid "
                 "transfers (one thing changed) with coins on the orbiter account. "
-                "Non-trivial = a history with >= 1 error ack and >= 1 success; distinct by history.",
+                "TestC19LabFaults (LAB world): one packet shape and one failing dependency call (returns an error, panics before, panics after its "
+                "work) executed on two independently built LAB instances and again on the first - abort-or-answer, acknowledgement bytes, events and "
+                "store digest must agree. Histories also advance the block (height/time) between steps. "
+                "Non-trivial = a history with >= 1 error ack and >= 1 success, or a fault that fired; distinct by history / case.",
         "assumptions": COMMON_ASSUMPTIONS + ["query responses are not compared byte-wise (a proto map field has no defined wire order)"],
         "tests": [
             {"test": "TestC19InProcess", "quick": 250, "thorough": 80000},
             {"test": "TestC19FreshInstance", "quick": 120, "thorough": 32000},
+            {"test": "TestC19LabFaults", "quick": 400, "thorough": 96000},
             {"test": "TestC19CrossProcess", "quick": 150, "thorough": 24000, "replicas": 2, "shards": 8},
         ],
     },
